@@ -269,6 +269,16 @@ def h_media_stanza(ctx, kind, which):
     from checks import c10
     from ref import e2e_ref
     import yowsup.layers.protocol_media.layer as ML
+    try:
+        return _media_stanza(ctx, kind, which)
+    finally:
+        c10.restore()
+
+
+def _media_stanza(ctx, kind, which):
+    from checks import c10
+    from ref import e2e_ref
+    import yowsup.layers.protocol_media.layer as ML
     C, c = c10.conv(ctx)
     C.AttributesConverter._AttributesConverter__instance = c
     v = c10.V(ctx)
